@@ -74,7 +74,7 @@ def cli_case(draw):
         while fn.split(".")[0] in used:
             fn = "z" + fn
         used.add(fn.split(".")[0])
-        files.append({"name": fn, "blocks": draw(universe.script(1, 2))})
+        files.append({"name": fn, "blocks": draw(universe.script(1, 2, unsupported_p=3))})
     decoys = []
     if dir_mode:
         for i in range(draw(st.integers(0, 2))):
